@@ -186,7 +186,9 @@ def run_mapper(sid, metric, knobs=(), arch=None, wl=None, use_cache=True, eval_i
                 tree = f"<{type(e).__name__}>"
             res["rows"].append({
                 "nodes": nodes,
-                "energy": float(row["Total<SEP>energy"]), "latency": float(row["Total<SEP>latency"]),
+                # tables that were not evaluated in detail only carry the optimised metric(s)
+                "energy": float(row["Total<SEP>energy"]) if (eval_in_detail or "Total<SEP>energy" in row) else None,
+                "latency": float(row["Total<SEP>latency"]) if (eval_in_detail or "Total<SEP>latency" in row) else None,
                 "edp": float(row["Total<SEP>energy_delay_product"]) if "Total<SEP>energy_delay_product" in row else None,
                 "usage": {m: float(ru.get(m, 0.0)) for m in mems}, "tree": tree})
     except Exception as e:
